@@ -30,7 +30,7 @@ Anything else raises Untranslatable(<named construct>): a broken tie.
 import ast, os, hashlib
 from translate import Untranslatable, find_function
 
-ERRS = {"ValueError", "IndexError", "OverflowError", "TypeError", "AssertionError", "KeyError"}
+ERRS = {"ValueError", "IndexError", "OverflowError", "TypeError", "AssertionError", "KeyError", "InvalidOperation"}
 
 LEAN_TY = {"Nat": "Nat", "Int": "Int", "Bool": "Bool", "OptNat": "Option Nat", "OptInt": "Option Int", "Dec": "PM.Dec",
            "Tok": "PM.Token", "OptTok": "Option PM.Token", "Char": "Char", "Label": "PM.Label", "Ymd": "PM.Ymd",
@@ -38,7 +38,8 @@ LEAN_TY = {"Nat": "Nat", "Int": "Int", "Bool": "Bool", "OptNat": "Option Nat", "
            "NatList": "List Nat", "CharList": "List Char", "YMD": "PM.YMD", "NatPair": "Nat × Nat",
            "NatOptPair": "Nat × Option Nat", "OptPair": "Option (Nat × Nat)", "Unit": "Unit",
            "TokPair": "PM.Token × PM.Token", "NumRet": "Nat × PM.Ymd × PM.Res",
-           "StepRet": "List PM.Token × Nat × PM.Res × PM.Ymd × List Nat", "OptFloat": "Option Unit", "IntStr": "Int", "DT": "DT", "Repl": "PPy.Repl", "DecimalV": "PPy.DecimalV", "FoldDt": "PPy.FoldDt"}
+           "StepRet": "List PM.Token × Nat × PM.Res × PM.Ymd × List Nat", "OptFloat": "Option Unit", "IntStr": "Int", "DT": "DT", "Repl": "PPy.Repl", "OptBool": "Option Bool", "Str": "List Char",
+           "ParseRet": "Option (PM.Res × Option (List PM.Token))", "DecimalV": "PPy.DecimalV", "FoldDt": "PPy.FoldDt"}
 PAIR_TYPES = {"NatPair": ("Nat", "Nat"), "NatOptPair": ("Nat", "OptNat"), "TokPair": ("Tok", "Tok")}
 # (methods of `parser` that are themselves translated: PARSER_METHODS below)
 
@@ -67,7 +68,8 @@ class PFn:
     """one Lean function to produce from one Python function"""
 
     def __init__(self, qualname, leanname, params, ret, self_type=None, ctx=(), returns=None, locals_=None,
-                 inlines=(), part=None, body_fn=None):
+                 inlines=(), part=None, body_fn=None, loop=None):
+        self.loop = loop                # (Lean loop function, its argument names, its state names) for a `while` inside
         self.part = part                # None = the whole function; "while-body" = the body of its (only) `while` loop;
         self.body_fn = body_fn          # "while" = that loop itself (its body is the separately translated `body_fn`)
         self.qualname = qualname
@@ -131,6 +133,10 @@ class Tr:
             x = self.fresh("v")
             pre.append((x, "PPy.optNat %s" % t, "Nat"))
             return x
+        if want == "Bool" and ty == "OptBool" and pre is not None:
+            x = self.fresh("v")
+            pre.append((x, "PPy.optBool %s" % t, "Bool"))
+            return x
         if want == "Dec" and ty == "DecimalV" and pre is not None:       # only after `is_finite()` held
             x = self.fresh("v")
             pre.append((x, "PPy.decFinite %s" % t, "Dec"))
@@ -175,10 +181,18 @@ class Tr:
             parts = [self.E(x, pre) for x in e.elts]
             if self.spec.ret == "YMD" and len(parts) == 3:
                 return "(%s)" % ", ".join(self.coerce(t, ty, "OptNat", pre) for t, ty in parts), "YMD"
+            if len(parts) == 2 and self.spec.ret == "ParseRet":
+                (a, ta), (b, tb) = parts
+                if ta == "None" and tb == "None": return "none", "ParseRet"
+                if ta == "Res" and tb == "None": return "(some (%s, none))" % a, "ParseRet"
+                if ta == "Res" and tb == "Toks": return "(some (%s, some %s))" % (a, b), "ParseRet"
+                raise Untranslatable("return of (%s, %s)" % (ta, tb))
             if len(parts) == 2 and self.spec.ret in PAIR_TYPES:
                 want = PAIR_TYPES[self.spec.ret]
                 return "(%s)" % ", ".join(self.coerce(t, ty, w, pre) for (t, ty), w in zip(parts, want)), self.spec.ret
             raise Untranslatable("tuple value")
+        if isinstance(e, ast.List) and not e.elts:
+            return "([] : List Nat)", "NatList"
         if isinstance(e, ast.List):
             vals = []
             for x in e.elts:
@@ -393,6 +407,12 @@ class Tr:
                 if ty in ("Tok", "IntStr"): return "true", "StaticBool"
                 if ty in ("Dec", "Nat", "Int"): return "false", "StaticBool"
                 raise Untranslatable("hasattr(%s, '__len__')" % ty)
+            if n == "_ymd" and not e.args and not e.keywords:
+                return "({} : PM.Ymd)", "Ymd"
+            if n == "tuple" and len(e.args) == 1:
+                t, ty = self.E(e.args[0], pre)
+                if ty != "Toks": raise Untranslatable("tuple(%s)" % ty)
+                return t, ty
             if n == "getattr" and len(e.args) == 2:
                 a, ta = self.E(e.args[1], pre)
                 if ta != "Static" or not isinstance(a.v, str): raise Untranslatable("getattr with a dynamic name")
@@ -410,6 +430,18 @@ class Tr:
             if n == "range" and len(e.args) == 1 and isinstance(e.args[0], ast.Constant) and isinstance(e.args[0].value, int):
                 return "(List.range %d)" % e.args[0].value, "NatList"
             raise Untranslatable("call %s" % n)
+        if isinstance(f, ast.Attribute) and ast.unparse(f) == "self._result" and not e.args and not e.keywords:
+            return "({} : PM.Res)", "Res"
+        if isinstance(f, ast.Attribute) and ast.unparse(f) == "_timelex.split" and len(e.args) == 1:
+            t, ty = self.E(e.args[0], pre)
+            if ty != "Str": raise Untranslatable("_timelex.split(%s)" % ty)
+            return "(PM.lex cls %s)" % t, "Toks"              # the lexer: a named primitive (Model/Lexer.lean) until it is translated
+        if isinstance(f, ast.Attribute) and ast.unparse(f) == "self._recombine_skipped" and len(e.args) == 2:
+            a, ta = self.E(e.args[0], pre); b, tb = self.E(e.args[1], pre)
+            if (ta, tb) != ("Toks", "NatList"): raise Untranslatable("_recombine_skipped(%s, %s)" % (ta, tb))
+            x = self.fresh("sk")
+            pre.append((x, "PM.recombineSkipped %s %s" % (a, b), "Toks"))     # named primitive (hand model) until it is translated
+            return x, "Toks"
         if isinstance(f, ast.Attribute) and ast.unparse(f) == "relativedelta.relativedelta" and not e.args \
                 and len(e.keywords) == 1 and e.keywords[0].arg == "weekday":
             a, ta = self.E(e.keywords[0].value, pre)
@@ -508,6 +540,11 @@ class Tr:
                 x = self.fresh("q")
                 pre.append((x, "Gen.P.info_%s %s %s" % (f.attr, recv, a), rty))
                 return x, rty
+            if rt == "Ymd" and recv != "self" and f.attr == "resolve_ymd" and len(e.args) == 2:
+                a, ta = self.E(e.args[0], pre); b, tb = self.E(e.args[1], pre)
+                x = self.fresh("r")
+                pre.append((x, "Gen.P.ymd_resolveYmd %s %s %s" % (recv, self.coerce(a, ta, "Bool", pre), self.coerce(b, tb, "Bool", pre)), "YMD"))
+                return x, "YMD"
             if rt == "Ymd" and f.attr == "_resolve_from_stridxs" and len(e.args) == 1:
                 a, ta = self.E(e.args[0], pre)
                 if ta != "Strids": raise Untranslatable("_resolve_from_stridxs(%s)" % ta)
@@ -667,7 +704,7 @@ class Tr:
             if tl in ("Nat", "Int", "Tok", "Dec"): return (not pos), ("none", "None")
             if tl == "None": return pos, ("none", "None")
             if tl == "Label": return "(%s %s PM.Label.none)" % (l, "=" if pos else "≠"), ("none", "None")
-            if tl in ("OptNat", "OptInt", "OptTok", "OptFloat"): return "(%s %s none)" % (l, "=" if pos else "≠"), ("none", "None")
+            if tl in ("OptNat", "OptInt", "OptTok", "OptFloat", "OptBool"): return "(%s %s none)" % (l, "=" if pos else "≠"), ("none", "None")
             raise Untranslatable("is None on %s" % tl)
         if isinstance(op, (ast.In, ast.NotIn)):
             neg = isinstance(op, ast.NotIn)
@@ -769,6 +806,8 @@ class Tr:
                 for n in self.assigned(s.body) + [m for h in s.handlers for m in self.assigned(h.body)]: add(n)
             elif isinstance(s, ast.For):
                 for n in self.assigned(s.body): add(n)
+            elif isinstance(s, ast.While) and self.spec.loop:
+                for n in self.spec.loop[2]: add(n)
         return out
 
     def mutating_call(self, v):
@@ -871,6 +910,7 @@ class Tr:
 
     def B(self, stmts, k, live_out):
         if not stmts:
+            if k is None: raise Untranslatable("control falls off the end of a block that must return")
             return k()
         s, rest = stmts[0], stmts[1:]
         nxt = lambda: self.B(rest, k, live_out)
@@ -920,6 +960,17 @@ class Tr:
             if ty == "StaticBool": ty = "Bool"
             t = self.coerce(t, ty, self.spec.ret, pre)
             return self.wrap(pre, ".ok %s" % t)
+        if isinstance(s, ast.While):
+            if not self.spec.loop: raise Untranslatable("while loop")
+            fn_, args, state = self.spec.loop
+            for a in args:
+                if a not in self.types: raise Untranslatable("loop variable %s is not bound" % a)
+            self.uses_fuel = True
+            x = self.fresh("w")
+            out = ""
+            for k2, n in enumerate(state):
+                out += "let %s := %s\n" % (self.lname(n), x + ".2" * k2 + (".1" if k2 < len(state) - 1 else ""))
+            return "Except.bind (%s fuel cls info %s) (fun %s =>\n%s%s)" % (fn_, " ".join(self.lname(a) for a in args), x, out, nxt())
         if isinstance(s, ast.For):
             if s.orelse or not isinstance(s.target, ast.Name) or not isinstance(s.iter, (ast.Tuple, ast.List)) \
                     or not all(isinstance(x, ast.Constant) for x in s.iter.elts) or self.has(s.body, (ast.Break, ast.Continue, ast.Return)):
@@ -967,6 +1018,23 @@ class Tr:
         """try: return <expr with one D[key]>  except KeyError: S"""
         if len(s.handlers) == 1 and isinstance(s.handlers[0].type, ast.Name) and s.handlers[0].type.id == "Exception":
             return self.try_exception(s, rest, k, live_out)
+        if len(s.handlers) == 1 and isinstance(s.handlers[0].type, ast.Tuple) and not s.orelse and not s.finalbody \
+                and all(isinstance(x, ast.Name) and x.id in ERRS for x in s.handlers[0].type.elts) \
+                and s.handlers[0].body and isinstance(s.handlers[0].body[-1], ast.Return) and not self.has(s.body, ast.Return):
+            kinds = [x.id for x in s.handlers[0].type.elts]
+            live = self.live_in(rest, live_out)
+            vs = [x for x in self.assigned(s.body) if x in live]
+            saved = (dict(self.types), dict(self.static), dict(self.narrow))
+            body = self.B(s.body, lambda: ".ok %s" % self.ret_text(vs), live)
+            after_types = dict(self.types)
+            self.types, self.static, self.narrow = dict(saved[0]), dict(saved[1]), dict(saved[2])
+            handler = self.B(s.handlers[0].body, None, live_out)
+            self.types = after_types
+            tmp = self.fresh("j") if vs else "_"
+            after = self.B(rest, k, live_out)
+            cond = " ∨ ".join("e_ = .%s" % kk for kk in kinds)
+            return "(match (%s) with\n| .error e_ => if (%s) then\n%s\nelse .error e_\n| .ok %s =>\n%s%s)" % (
+                body, cond, handler, tmp, self.unpack(vs, tmp) if vs else "", after)
         h0 = s.handlers[0] if len(s.handlers) == 1 else None
         if h0 is not None and isinstance(h0.type, ast.Name) and h0.type.id == "ValueError" and not s.orelse and not s.finalbody \
                 and len(s.body) == 1 and isinstance(s.body[0], ast.Assign) and isinstance(s.body[0].targets[0], ast.Name) \
@@ -1028,6 +1096,12 @@ class Tr:
                     out += self.bind_name(n, t, ty, pre)
                 return self.wrap(pre, out + nxt())
             t, ty = self.E(value, pre)
+            if ty == "YMD" and len(names) == 3:
+                out = ""
+                for i2, n in enumerate(names):
+                    proj = t + ".2" * i2 + (".1" if i2 < 2 else "")
+                    out += self.bind_name(n, proj, "OptNat", pre)
+                return self.wrap(pre, out + nxt())
             if ty in PAIR_TYPES and len(names) == 2:
                 out = ""
                 for i, n in enumerate(names):
@@ -1060,6 +1134,9 @@ class Tr:
             out += "let %s := %s.2.1\nlet %s := %s.2.2\n" % (names[3], x, names[4], x)
             return self.wrap(pre, out + nxt())
         t, ty = self.E(value, pre)
+        if isinstance(target, ast.Name) and ty == "Info":
+            if t != "info" or target.id != "info": raise Untranslatable("a second parserinfo")
+            return nxt()
         if isinstance(target, ast.Name):
             if ty == "Static":
                 if self.types.get(target.id) == "Label" or self.spec.locals.get(target.id) == "Label":
@@ -1116,7 +1193,25 @@ class Tr:
             del self.narrow[kk]
         return "let %s : %s := %s\n" % (self.lname(n), lty(ty), t) if ty in LEAN_TY else "let %s := %s\n" % (self.lname(n), t)
 
+    def validate_always_true(self):
+        fn = find_function(self.tree, "parserinfo.validate")
+        rets = [n for n in ast.walk(fn) if isinstance(n, ast.Return)]
+        return bool(rets) and all(isinstance(r.value, ast.Constant) and r.value.value is True for r in rets) \
+            and isinstance(fn.body[-1], ast.Return)
+
     def if_(self, s, rest, k, live_out):
+        t = s.test
+        if isinstance(t, ast.UnaryOp) and isinstance(t.op, ast.Not) and isinstance(t.operand, ast.Call) \
+                and isinstance(t.operand.func, ast.Attribute) and t.operand.func.attr == "validate" \
+                and isinstance(t.operand.func.value, ast.Name) and self.types.get(t.operand.func.value.id) == "Info" \
+                and len(t.operand.args) == 1 and isinstance(t.operand.args[0], ast.Name) \
+                and self.types.get(t.operand.args[0].id) == "Res" and not s.orelse:
+            # `if not info.validate(res): …` — validate writes into `res` and (checked on its AST now) only ever returns True
+            if not self.validate_always_true(): raise Untranslatable("parserinfo.validate does not always return True")
+            r = t.operand.args[0].id
+            x = self.fresh("v")
+            return "Except.bind (Gen.P.info_validate %s %s) (fun %s =>\nlet %s := %s\n%s)" % (
+                t.operand.func.value.id, r, x, r, x, self.B(rest, k, live_out))
         pre = []
         c = self.C(s.test, pre)
         if isinstance(c, bool):
@@ -1147,9 +1242,17 @@ class Tr:
         tys = []
 
         def tail():
-            tys.append({v: self.types.get(v) for v in vs})
             if any(v in self.static for v in vs): raise Untranslatable("static value crosses a join")
-            return ".ok %s" % self.ret_text(vs)
+            p2, out = [], []
+            for v in vs:
+                want = self.spec.locals.get(v)
+                if want and self.types.get(v) != want:
+                    out.append(self.coerce(self.lname(v), self.types.get(v), want, p2)); self.types[v] = want
+                else:
+                    out.append(self.lname(v))
+            tys.append({v: self.types.get(v) for v in vs})
+            txt = "()" if not out else out[0] if len(out) == 1 else "(" + ", ".join(out) + ")"
+            return self.wrap(p2, ".ok %s" % txt)
         thn = branch(s.body, tail, live)
         els = branch(s.orelse, tail, live)
         self.types, self.static, self.narrow = saved
@@ -1228,6 +1331,7 @@ class Tr:
                 raise Untranslatable("control falls off the end of the function")
             live = set()
         body = self.B(stmts, k, live)
+        if getattr(self, "uses_fuel", False): params.insert(0, "(fuel : Nat)")
         return "/-- translated from `%s:%s`%s -/\ndef %s %s : Py.R (%s) :=\n%s\n" % (
             relfile, sp.qualname, " (%s)" % ", ".join("%s : %s" % p for p in sp.params) if sp.params else "",
             sp.leanname, " ".join(params), lty(sp.ret), body)
@@ -1316,6 +1420,10 @@ PARSER_SPECS = [
         [("l", "Toks"), ("i", "Nat"), ("len_l", "Nat"), ("info", "Info"), ("res", "Res"), ("ymd", "Ymd"),
          ("skipped_idxs", "NatList"), ("fuzzy", "Bool"), ("timestr", "Skip")], "StepRet", self_type="Parser", ctx=[CLS],
         returns=["l", "i", "res", "ymd", "skipped_idxs"], part="while", body_fn="parseStep"),
+    PFn("parser._parse", "parse", [("timestr", "Str"), ("dayfirst", "OptBool"), ("yearfirst", "OptBool"), ("fuzzy", "Bool"),
+                                   ("fuzzy_with_tokens", "Bool")], "ParseRet", self_type="Parser", ctx=[CLS],
+        locals_={"dayfirst": "Bool", "yearfirst": "Bool", "skipped_idxs": "NatList"},
+        loop=("Gen.P.parseLoop", ["l", "i", "len_l", "res", "ymd", "skipped_idxs", "fuzzy"], ["l", "i", "res", "ymd", "skipped_idxs"])),
 ]
 
 
